@@ -462,6 +462,50 @@ type c17Out struct {
 // returned (the same pointer), however often the result was adapted for
 // converter use in between.
 func runC17Struct(c *CaseCtx, r *rand.Rand) (res CaseResult) {
+	if r.Intn(5) == 0 {
+		// a function that returns a NIL pointer to its marker struct: the
+		// direct caller gets exactly that nil pointer back
+		withErr, once := r.Intn(2) == 0, r.Intn(2) == 0
+		res.Key = fmt.Sprintf("nil-struct-pointer-result err=%v once=%v", withErr, once)
+		res.NonTrivial = true
+		det := map[string]interface{}{"results": res.Key}
+		defer func() {
+			if p := recover(); p != nil {
+				res.violate("C06", "panic/result-"+crashKey(fmt.Sprint(p)), fmt.Sprintf("panicked: %v", p), det)
+			}
+		}()
+		var fn interface{} = func() *c17Out { return nil }
+		if withErr {
+			fn = func() (*c17Out, error) { return nil, nil }
+		}
+		var opts []am.Arg
+		if once {
+			opts = append(opts, am.FuncOnce())
+		}
+		f, err := am.NewFunc(fn, opts...)
+		if err != nil {
+			res.violate("C14", "accepted-shape-rejected", "NewFunc rejected a struct-returning function: "+err.Error(), det)
+			return res
+		}
+		callee := []*am.Func{f}
+		if rf, err := f.Redefine(); err == nil && r.Intn(2) == 0 {
+			callee = append(callee, rf)
+		}
+		for k := 0; k < 3; k++ {
+			rr := pick(r, callee).Call()
+			res.Evals++
+			if rr.Err() != nil || rr.Len() != 1 {
+				res.violate("C17", "len", fmt.Sprintf("Len() = %d, Err() = %v for a function returning one nil pointer", rr.Len(), rr.Err()), det)
+				continue
+			}
+			if p, ok := rr.Out(0).(*c17Out); !ok || p != nil {
+				res.violate("C17", "out", fmt.Sprintf("Out(0) = %T %v, the function returned a nil *c17Out", rr.Out(0), rr.Out(0)), det)
+			}
+		}
+		res.obs("nil_struct_pointer_results", 1)
+		res.Sample = det
+		return res
+	}
 	ptr := r.Intn(3) > 0
 	withErr := r.Intn(2) == 0
 	once := r.Intn(2) == 0
